@@ -67,6 +67,28 @@ Proof.
     by (apply map_ext; intro row; destruct (packed_row A dot add row Wq Wk Wv bias L) as (Eq & Ek & Ev); assumption).
   rewrite E1, E2, E3. reflexivity.
 Qed.
+(* the packed-MatMul + Slice variant: Attention(input, qkv_weight, bias; qkv_hidden_sizes = [dq, dk, dv]) = MultiHeadAttention on
+   the three slices of MatMul(input, qkv_weight), when the slices tile the projection (dq + dk + dv = hidden = number of weight
+   columns) and the bias has hidden elements (MultiHeadAttention's own operand constraint) *)
+Theorem attention_fusion_identity_slice : forall (A Out : Type) (dot : list A -> list A -> A) (add : A -> A -> A)
+  (core : list (list A) -> list (list A) -> list (list A) -> Out) rows W bias dq dk dv,
+  length bias = length W -> dq + dk + dv = length W ->
+  att_fused A dot add Out core rows W bias dq dk dv = att_pattern_slice A dot add Out core rows W bias dq dk.
+Proof.
+  intros A Out dot add core rows W bias dq dk dv LB LS. unfold att_fused, att_pattern_slice, mha_with_bias, project, matmul.
+  rewrite !map_map.
+  assert (LR : forall row : list A, length (map (dot row) W) = length bias) by (intro; rewrite map_length; auto).
+  f_equal; apply map_ext; intro row.
+  - apply map2_firstn.
+  - rewrite (map2_skipn A add dq _ _ (LR row)). apply map2_firstn.
+  - rewrite (map2_skipn A add (dq + dk) _ _ (LR row)). apply firstn_all2.
+    rewrite map2_length; rewrite !skipn_length, ?map_length; lia.
+Qed.
+Example attention_slice_identity_computes :
+  att_pattern_slice nat (fun r c => fold_right plus 0 (map2 mult r c)) plus (list (list nat)) (fun q k v => q ++ k ++ v)
+            [[1; 2]; [3; 4]] [[1; 0]; [0; 1]; [1; 1]] [10; 20; 30] 1 1 = [[11]; [13]; [22]; [24]; [33]; [37]].
+Proof. vm_compute. reflexivity. Qed.
+
 (* instance: [core] = the documented MultiHeadAttention on the packed layout, any B, S, T, H, Dh, Dv, any per-head attention *)
 Corollary attention_equals_mha : forall (A : Type) (d0 : A) (dot : list A -> list A -> A) (add : A -> A -> A)
   (attn : list (list A) -> list (list A) -> list (list A) -> option (list (list A)) -> list (list A))
@@ -95,4 +117,39 @@ Proof.
   all: eqb_subst.
   all: match type of H with (if ?c then _ else _) = _ => destruct c; [|discriminate] end.
   all: inversion H; subst; exists b, s, d; repeat split; auto; apply St.
+Qed.
+
+(* check()-sufficiency (packed + Slice rules): the slices start at 0, are contiguous and reach the end of the projection, the
+   weight is [D, Dh] with the input's D and Dh = Dq + Dk + Dv static: the slices tile the projection, the hypothesis
+   dq + dk + dv = hidden of the identity *)
+Theorem att_check_sufficient_slice : forall i dq dk dv, ai_no_slice i = false -> att_check_rewrite i = Some (dq, dk, dv) ->
+  exists b s d p0 p1 hidden s1 e1 s2 e2 s3 e3,
+    ai_input i = Some [b; s; d] /\ ai_qkv_weight i = Some [d; dq + dk + dv]%Z
+    /\ ai_projected i = Some [p0; p1; hidden] /\ (0 <= hidden)%Z
+    /\ ai_bounds i = [s1; e1; s2; e2; s3; Some e3] /\ s1 = Some 0%Z /\ oz_eq e1 s2 = true /\ oz_eq e2 s3 = true /\ (hidden <= e3)%Z
+    /\ ai_q i = Some [b; s; dq] /\ ai_k i = Some [b; s; dk] /\ ai_v i = Some [b; s; dv]
+    /\ (0 <= dq /\ 0 <= dk /\ 0 <= dv)%Z.
+Proof.
+  intros i dq dk dv NS H. pose proof (att_check_sound _ _ _ _ H) as St. unfold att_check_rewrite in H. rewrite NS in H.
+  destruct (ai_projected i) as [[|p0 [|p1 [|hidden [|? ?]]]]|];
+    destruct (ai_bounds i) as [|s1 [|e1 [|s2 [|e2 [|s3 [|e3 [|? ?]]]]]]]; try discriminate.
+  match type of H with context [if ?c then _ else None] => destruct c eqn:C end.
+  2:{ simpl in H. discriminate. }
+  apply andb_prop in C. destruct C as [C Ce3]. apply andb_prop in C. destruct C as [C C23].
+  apply andb_prop in C. destruct C as [C C12]. apply andb_prop in C. destruct C as [C C0].
+  destruct e3 as [e3|]; [|discriminate].
+  destruct s1 as [s1|]; [|discriminate]. simpl in C0. apply Z.eqb_eq in C0. subst s1.
+  unfold is_static in C. apply Z.leb_le in C. apply Z.leb_le in Ce3.
+  destruct (ai_input i) as [[|b [|s [|d [|? ?]]]]|]; simpl in H; try discriminate.
+  destruct (ai_qkv_weight i) as [[|w0 [|w1 [|? ?]]]|]; simpl in H; try discriminate; split_eqb H.
+  all: destruct (ai_q i) as [[|q0 [|q1 [|q2 [|? ?]]]]|]; simpl in H; try discriminate; split_eqb H.
+  all: destruct (ai_k i) as [[|k0 [|k1 [|k2 [|? ?]]]]|]; simpl in H; try discriminate; split_eqb H.
+  all: destruct (ai_v i) as [[|v0 [|v1 [|v2 [|? ?]]]]|]; simpl in H; try discriminate; split_eqb H.
+  all: eqb_subst.
+  all: match type of H with (if ?c then _ else _) = _ => destruct c eqn:CC; [|discriminate] end.
+  all: inversion H; subst; repeat (apply andb_prop in CC; destruct CC as [CC ?]).
+  all: repeat match goal with X : (_ && _) = true |- _ => apply andb_prop in X; destruct X end.
+  all: try match goal with E : (_ =? _)%Z = true |- _ => apply Z.eqb_eq in E; subst end.
+  all: try discriminate.
+  all: exists b, s, d, p0, p1, hidden, (Some 0%Z), e1, s2, e2, s3, e3; repeat split; auto; apply St.
 Qed.
